@@ -5,7 +5,7 @@
    Spec: Spec/TabSpec.v (spec_arrays, spec_rows = Cartesian product of the alternatives). *)
 From Coq Require Import List Arith.
 From IGP Require Import Base.Str Base.Outcome Model.Tree Model.Odo Model.Leaves Model.Link Model.Tabular Spec.TabSpec
-  Proofs.OdoProof Proofs.TabProof Gen.Wiring Tie.C04_tie.
+  Proofs.OdoProof Proofs.TabProof Proofs.RowsProof Proofs.RowIds Gen.Wiring Tie.C04_tie.
 Import ListNotations.
 
 (* the atomic statements the exporter builds rows from are exactly the Cartesian product over the component
@@ -43,6 +43,21 @@ Theorem C04_no_component_no_table : forall s, spec_arrays (tt_leaf tab_T) s = []
   odometer (stmt_leaf_refs (tt_leaf tab_T) s) = Err ERR_EMPTY_LEAF.
 Proof. exact (no_choice_without_component (tt_leaf tab_T)). Qed.
 Print Assumptions C04_no_component_no_table.
+
+(* the row loop writes one row per element of that product, none skipped, none added *)
+Theorem C04_one_row_per_choice : forall C s anno sl perms lms multi reg sid out reg',
+  rows_loop tab_T C s anno sl perms lms multi 0 reg sid [] = Ok (out, reg') -> length out = length perms.
+Proof. exact (one_row_per_choice tab_T). Qed.
+Print Assumptions C04_one_row_per_choice.
+
+(* and numbers them id.1 ... id.N in product order - pairwise different - unless a component of the statement is itself
+   named like the identifier column (lref_safe; nothing the parser produces is) *)
+Theorem C04_rows_numbered_in_product_order : forall C s anno sl rows lms reg sid out reg', Forall (Forall lref_safe) rows ->
+  rows_loop tab_T C s anno sl rows lms true 0 reg sid [] = Ok (out, reg') ->
+  map (fun r => rget r K_ID) out = map (fun i => sid ++ $"." ++ itoa_nat (S i)) (seq 0 (length rows)) /\
+  NoDup (map (fun r => rget r K_ID) out).
+Proof. exact (own_row_ids_distinct tab_T). Qed.
+Print Assumptions C04_rows_numbered_in_product_order.
 
 (* non-vacuity: A(x [OR] y) I(z) Cex(c1) Cex(c2 [XOR] c3) has 2 * 1 * 3 atomic statements *)
 Example C04_example :
